@@ -194,4 +194,176 @@ theorem cleanup_of_nulls (t : St) (h1 : t.req.path = .null) (h2 : t.req.newPath 
   subst h1 h2 h3 h4 h5
   simp [cleanup]
 
+/-- all kernel answers that occur in a life cycle -/
+def answers (a : Args) (evs : List Ev) : List Outcome :=
+  a.outs ++ evs.flatMap fun e => match e with | .work os => os | _ => []
+
+def cqeResults (evs : List Ev) : List Int :=
+  evs.filterMap fun e => match e with | .cqe r => some r | _ => none
+
+theorem work_result_cases (q : Req) (l : Ledger) (outs : List Outcome) :
+    (∃ n : Nat, ((.ok n ∈ outs) ∨ n = 0) ∧ (work q l outs).1.result = (n : Int)) ∨
+    (∃ e : Nat, ((.fail e ∈ outs) ∨ e = FsBuf.EIO) ∧ (work q l outs).1.result = -(e : Int)) := by
+  induction outs generalizing q l with
+  | nil =>
+    rw [work_nil]
+    rcases attempt_out q l (.fail EIO) with ⟨n, hn, h | h⟩ | ⟨e, he, h⟩
+    · cases h
+    · left; refine ⟨0, Or.inr rfl, ?_⟩; subst h; simp [hn, finishWork]
+    · right; cases h; refine ⟨EIO, Or.inr rfl, ?_⟩; simp [he, finishWork]
+  | cons o rest ih =>
+    rw [work_cons]
+    rcases attempt_out q l o with ⟨n, hn, h⟩ | ⟨e, he, h⟩
+    · rw [hn]; simp only []
+      left
+      rcases h with h | h
+      · exact ⟨n, Or.inl (by simp [h]), by simp [finishWork]⟩
+      · subst h; exact ⟨0, Or.inr rfl, by simp [finishWork]⟩
+    · rw [he]; simp only []
+      split
+      · rcases ih (attempt q l o).1 (attempt q l o).2.1 with ⟨n, hn, hr⟩ | ⟨e', hn, hr⟩
+        · left; refine ⟨n, ?_, hr⟩; rcases hn with hn | hn
+          · exact Or.inl (List.mem_cons_of_mem _ hn)
+          · exact Or.inr hn
+        · right; refine ⟨e', ?_, hr⟩; rcases hn with hn | hn
+          · exact Or.inl (List.mem_cons_of_mem _ hn)
+          · exact Or.inr hn
+      · right; exact ⟨e, Or.inl (by simp [h]), by simp [finishWork]⟩
+
+def evAns : Ev → List Outcome
+  | .work os => os
+  | _ => []
+
+def evCqe : Ev → List Int
+  | .cqe r => [r]
+  | _ => []
+
+/-- `req->result` is a count, UV_ECANCELED, the negated errno of a failed answer, or a CQE result -/
+def ResOk (A : List Outcome) (C : List Int) (r : Int) : Prop :=
+  r ≥ 0 ∨ r = UV_ECANCELED ∨ (∃ e : Nat, ((.fail e ∈ A) ∨ e = FsBuf.EIO) ∧ r = -(e : Int)) ∨ (∃ c, c ∈ C ∧ r = c)
+
+theorem ResOk_mono {A A' : List Outcome} {C C' : List Int} {r : Int} (hA : ∀ o, o ∈ A → o ∈ A') (hC : ∀ c, c ∈ C → c ∈ C')
+    (h : ResOk A C r) : ResOk A' C' r := by
+  rcases h with h | h | ⟨e, he, hr⟩ | ⟨c, hc, hr⟩
+  · exact Or.inl h
+  · exact Or.inr (Or.inl h)
+  · refine Or.inr (Or.inr (Or.inl ⟨e, ?_, hr⟩))
+    rcases he with he | he
+    · exact Or.inl (hA _ he)
+    · exact Or.inr he
+  · exact Or.inr (Or.inr (Or.inr ⟨c, hC _ hc, hr⟩))
+
+theorem work_resok (q : Req) (l : Ledger) (outs : List Outcome) (A : List Outcome) (C : List Int)
+    (h : ∀ o, o ∈ outs → o ∈ A) : ResOk A C (work q l outs).1.result := by
+  rcases work_result_cases q l outs with ⟨n, _, hr⟩ | ⟨e, he, hr⟩
+  · left; rw [hr]; omega
+  · refine Or.inr (Or.inr (Or.inl ⟨e, ?_, hr⟩))
+    rcases he with he | he
+    · exact Or.inl (h _ he)
+    · exact Or.inr he
+
+def J (A : List Outcome) (C : List Int) (s : St) : Prop :=
+  (s.phase = .worked ∨ s.phase = .done) → ResOk A C s.req.result
+
+theorem cleanup_result (s : St) : (cleanup s).req.result = s.req.result ∧ (cleanup s).phase = s.phase := by
+  unfold cleanup
+  simp only []
+  constructor <;> (repeat' split) <;> first | rfl | trivial
+
+theorem next_result (s : St) : (scandirNext s).1.req.result = s.req.result ∧ (scandirNext s).1.phase = s.phase := by
+  unfold scandirNext
+  simp only []
+  constructor <;> (repeat' split) <;> first | rfl | trivial
+
+theorem J_step (a : Args) (A : List Outcome) (C : List Int) (s : St) (e : Ev) (hA : ∀ o, o ∈ a.outs → o ∈ A)
+    (h : J A C s) : J (A ++ evAns e) (C ++ evCqe e) (step a s e).1 := by
+  have mono : ∀ r, ResOk A C r → ResOk (A ++ evAns e) (C ++ evCqe e) r :=
+    fun r hr => ResOk_mono (fun o ho => List.mem_append_left _ ho) (fun c hc => List.mem_append_left _ hc) hr
+  cases e with
+  | submit =>
+    rw [step_submit]
+    split
+    · unfold submit
+      simp only []
+      split
+      · intro hp; simp at hp
+      · split
+        · intro hp; simp at hp
+        · split
+          · intro hp; simp at hp
+          · split
+            · intro hp; simp at hp
+            · split
+              · intro hp; simp at hp
+              · intro _
+                exact work_resok _ _ _ _ _ (fun o ho => List.mem_append_left _ (hA o ho))
+    · exact fun hp => mono _ (h hp)
+  | cancel =>
+    rw [step_cancel]
+    split
+    · intro hp; simp at hp
+    all_goals exact fun hp => mono _ (h hp)
+  | work outs =>
+    rw [step_work]
+    split
+    · intro _
+      exact work_resok _ _ _ _ _ (fun o ho => List.mem_append_right _ (by simpa [evAns] using ho))
+    · exact fun hp => mono _ (h hp)
+  | done =>
+    rw [step_done]
+    split
+    · rename_i hp
+      intro _
+      exact mono _ (h (Or.inl hp))
+    · intro _
+      exact Or.inr (Or.inl rfl)
+    · exact fun hp => mono _ (h hp)
+  | cqe res =>
+    rw [step_cqe]
+    split
+    · unfold cqe
+      simp only []
+      split
+      · intro hp; simp at hp
+      · intro _
+        refine Or.inr (Or.inr (Or.inr ⟨res, by simp [evCqe], ?_⟩))
+        split <;> rfl
+    · exact fun hp => mono _ (h hp)
+  | next =>
+    rw [step_next]
+    split
+    · intro hp
+      rw [(next_result s).2] at hp
+      rw [(next_result s).1]
+      exact mono _ (h hp)
+    · exact fun hp => mono _ (h hp)
+  | cleanup =>
+    rw [step_cleanup]
+    split
+    · intro hp
+      simp only [] at hp ⊢
+      rw [(cleanup_result s).2] at hp
+      rw [(cleanup_result s).1]
+      exact mono _ (h hp)
+    · exact fun hp => mono _ (h hp)
+
+theorem J_run (a : Args) (evs : List Ev) : ∀ (A : List Outcome) (C : List Int) (s : St),
+    (∀ o, o ∈ a.outs → o ∈ A) → J A C s → J (A ++ evs.flatMap evAns) (C ++ evs.flatMap evCqe) (runFrom a s evs) := by
+  induction evs with
+  | nil => intro A C s _ h; simpa [runFrom] using h
+  | cons e es ih =>
+    intro A C s hA h
+    have := ih (A ++ evAns e) (C ++ evCqe e) (step a s e).1 (fun o ho => List.mem_append_left _ (hA o ho)) (J_step a A C s e hA h)
+    simpa [runFrom, List.flatMap_cons, List.append_assoc] using this
+
+theorem answers_eq (a : Args) (evs : List Ev) : answers a evs = a.outs ++ evs.flatMap evAns := by
+  unfold answers
+  congr 1
+
+theorem cqes_eq (evs : List Ev) : cqeResults evs = evs.flatMap evCqe := by
+  unfold cqeResults
+  induction evs with
+  | nil => rfl
+  | cons e es ih => cases e <;> simp [List.flatMap_cons, List.filterMap_cons, evCqe, ih]
+
 end UvModel.FsReq
